@@ -2,14 +2,39 @@ from props_common import B
 
 PROP = {
     "crate": "c02",
-    "rule": "placeholder",
+    "rule": "Three case kinds per float vector type and backend. arith: a pair (a, b) of well-scaled vectors (components 0 or magnitude in [2^-40, 2^40] / [2^-300, 2^300]; "
+            "dense with narrow or wide exponent spread, sparse, single-axis, small integers; b independent, same-scale random direction, or constructed as "
+            "alpha*a + delta*|alpha||a|*orth(a) with delta = 10^-d down to 1e-7.5 (f32) / 1e-15 (f64), delta = 0, or exactly orthogonal), a unit vector and a parameter s, "
+            "evaluated by dot, dot_into_vec, cross, perp_dot, length, length_squared, length_recip, distance(_squared), element_sum/product, lerp, midpoint, "
+            "project_onto/reject_from (+_normalized), reflect, angle_between, angle_to; non-trivial when both operands have at least two non-zero lanes or the cancellation "
+            "ratio sum|terms|/|result| of dot/cross/perp_dot exceeds 4. normalize: one vector from the special-value lattice, the well-scaled generator, a scaled family "
+            "around the representability boundaries of the squared length, zeros and injected inf/NaN lanes, plus a fallback vector; non-trivial when the exact squared "
+            "length is outside [2*MIN_POSITIVE, MAX/2] (zero, overflow, non-finite) or the vector has at least two non-zero lanes; cases in the slack bands between are "
+            "tallied as boundary and not counted. refract: unit incident/normal pairs with eta in [0.2, 5], generic and constructed at k = 1 - eta^2(1 - (n.i)^2) = 0 +- 10^-j; "
+            "non-trivial when k is outside the rounding slack of the branch (otherwise boundary). Cases whose intermediate products leave the normal range "
+            "(|a|^2|b|^2 for the angles, partial products of element_product, b_i*(a.b)/(b.b) for project_onto, squared differences for distance) are tallied as "
+            "range-skip for that function only. distinct = distinct hash of (type, backend, operand bits).",
     "builds": {
         "quick": [B("stable"), B("nightly", 0.25, False)],
         "thorough": [B("stable"), B("fma", 0.5), B("nightly", 0.5, False)],
     },
-    "technique": "placeholder",
-    "level_text": "placeholder",
-    "level_note": "placeholder",
+    "technique": "property-based testing: constructed geometric generators (near-parallel / anti-parallel / orthogonal / cancellation pairs, representability-boundary "
+                 "vectors, total-internal-reflection boundary) against an f64 (f32 types) / double-double (f64 types) evaluation of the mathematical expression with "
+                 "derived forward-error bounds, in the SSE2, scalar-math, libm, nightly core-simd and (+fma,+avx2) builds",
+    "level_text": "Generated-input search: every geometric method of the seven float vector types is compared with the exact real value computed by the harness in f64 "
+                  "(f32 types; products of two f32 are exact) or double-double (f64 types). The tolerance of every comparison is derived, not tuned: twice the first-order "
+                  "gamma_n bound ops*u*sum|terms| of the longest evaluation path (valid for any association order, so one oracle serves scalar, SSE2 and core-simd), "
+                  "arccos conditioning 1/max(sin theta, sqrt u) plus the fixed 6e-7 of the polynomial arccos for the angles, an interval oracle at the refract "
+                  "discontinuity, and the valid / fallback / slack bands of the squared length for the normalize family (checked forms never return a non-finite "
+                  "vector). The largest error/tolerance ratio of every comparison is recorded (headroom). Failures shrink to a minimal operand tuple saved as a replay "
+                  "file. Exploration, not proof.",
+    "level_note": "Trusted: rustc f64 arithmetic, f64 sqrt/atan2/log2 of std, the double-double routines of vcore, proptest, the harness. Vec3A is built through "
+                  "Vec3A::from_vec4 with a hidden lane different from every visible lane. NEON/wasm32 backends cannot be built here.",
     "design_ref": "DESIGN.md section 5 C02",
-    "assumptions": [],
+    "assumptions": [
+        "the f64 / double-double evaluation of the formulas is exact enough to serve as the real value (error <= 2^-52 resp. 2^-100 relative to sum|terms|)",
+        "acos_approx's own error is bounded by 6e-7 (measured once exhaustively: 4.4e-7, DESIGN.md section 4)",
+        "angle_between/angle_to are judged only when |a|^2 |b|^2 is a normal finite number of the lane type (glam forms that product; see range-skip classes)",
+        "NEON and wasm32 sources are not compiled or executed (no target available offline)",
+    ],
 }
